@@ -472,7 +472,7 @@ def shard_history(plan_ref, seed, examples):
         elif scen == 'trap':
             # an instruction that is trapped / takes an exception, then whatever the handler holds, then the program again
             prog += X() if rng.random() < 0.5 else []
-            prog += asm.route(rng.choice(('cp', 'cp', 'cp', 'wfx', 'svc', 'udf')))
+            prog += asm.route(rng.choice(('cp', 'cp', 'cp', 'cp', 'wfx', 'wfx', 'svc', 'udf')))
             for _ in range(rng.randrange(2, 5)):
                 prog += X() if rng.random() < 0.5 else asm.pool()
         elif scen == 'return':
@@ -541,6 +541,10 @@ def shard_history(plan_ref, seed, examples):
         if scen == 'interwork':
             st_['R.R4usr'] = pc0 | 1
             st_['cpsr'] &= ~((1 << 5) | 0x0600FC00)
+        if scen == 'trap' and cfg.get('have_virt_ext'):
+            # trap controls mostly armed: HSTR.Tn for half of the CP15 primary registers or all of them, HCR.TIDCP / TWI / TWE / TSC at random
+            st_['hstr'] = rng.choice((0xFFFF, 0xFFFF, rng.getrandbits(16), 0))
+            st_['hcr'] = (st_.get('hcr', 0) & ~((1 << 27) | 1 | (1 << 12))) | (rng.getrandbits(1) << 20) | (rng.getrandbits(2) << 13) | (rng.getrandbits(1) << 19)
         if plan.tweak_case:
             plan.tweak_case(rng, x0[1], x0[2], case)
         rets = [i for i, ins in enumerate(prog) if ins[2] == 'RETURN']
